@@ -26,6 +26,7 @@ class Ctx:
         self.notes = []
         self.controls = []         # positive controls (perturbed facts) : (name, fired)
         self.kill_tests = []
+        self.silent_tests = []
         self.extra = {}
         self.assumptions = []
         self.configs_used = []
@@ -154,6 +155,7 @@ def write_evidence(ctx, explanation, rule_text, nviol):
             'configs': ctx.configs_used,
             'controls': ctx.controls,
             'kill_tests': ctx.kill_tests,
+            'negative_controls': getattr(ctx, 'silent_tests', []),
             'notes': ctx.notes,
             'exhaustive': False,
         },
@@ -225,7 +227,7 @@ def kill_one(pid, patch, seed):
         except SystemExit as e:
             return {'patch': name, 'status': 'extraction failed: %s' % e}
         hit = [k for k in fired if (expect is None or expect in k)]
-        return {'patch': name, 'status': 'killed' if hit else 'MISSED', 'fired': fired[:6]}
+        return {'patch': name, 'status': 'killed' if hit else 'MISSED', 'fired': fired if os.environ.get('VERIF_ALL_KEYS') else fired[:6]}
     finally:
         shutil.rmtree(tmp, ignore_errors=True)
 
@@ -248,6 +250,31 @@ def kill_tests(pid, tier, seed):
         out = list(ex.map(one, patches))
     allok = all(o['status'] == 'killed' or o['status'].startswith('skipped') for o in out)
     return out, allok
+
+
+def silent_tests(pid, seed, base_keys):
+    """thorough tier, negative controls: behaviour-preserving refactorings (/verif/equivalent/*.diff, written by independent
+    sub-agents, each with an equivalence argument and the full test suite passing) are applied to a scratch copy one at a
+    time; the pack must report nothing it does not also report on the unpatched tree"""
+    import concurrent.futures
+    d = os.path.join(VERIF, 'equivalent')
+    if not os.path.isdir(d):
+        return [], True
+    patches = [os.path.join(d, n) for n in sorted(os.listdir(d)) if n.endswith('.diff')]
+
+    def one(patch):
+        r = subprocess.run([sys.executable, '-m', 'analysis.runner', '--kill-one', pid, patch], cwd=VERIF, capture_output=True, text=True, env=dict(os.environ, VERIF_SEED=str(seed), VERIF_ALL_KEYS='1'))
+        for line in reversed(r.stdout.splitlines()):
+            if line.startswith('KILL-ONE '):
+                o = json.loads(line[len('KILL-ONE '):])
+                if o['status'].startswith('skipped'):
+                    return {'patch': os.path.basename(patch), 'status': o['status']}
+                extra = [k for k in o.get('fired', []) if k not in base_keys]
+                return {'patch': os.path.basename(patch), 'status': 'silent' if not extra else 'FALSE ALARM', 'fired': extra[:6]}
+        return {'patch': os.path.basename(patch), 'status': 'checker error: %s' % (r.stdout + r.stderr)[-300:]}
+    with concurrent.futures.ThreadPoolExecutor(max_workers=max(2, min(6, (os.cpu_count() or 4) // 2))) as ex:
+        out = list(ex.map(one, patches))
+    return out, all(o['status'] == 'silent' or o['status'].startswith('skipped') for o in out)
 
 
 def main(argv):
@@ -275,6 +302,8 @@ def main(argv):
         print('CHECKER-ERROR property=%s internal error' % pid)
         return 2
     checker_ok = True
+    silent_ok = True
+    ctx.silent_tests = []
     if tier == 'thorough':
         if hasattr(mod, 'thorough'):
             mod.thorough(ctx)
@@ -282,6 +311,9 @@ def main(argv):
         kt, ok = kill_tests(pid, tier, seed)
         ctx.kill_tests = kt
         checker_ok = ok
+        sil, ok2 = silent_tests(pid, seed, {v['key'] for v in ctx.violations})
+        ctx.silent_tests = sil
+        silent_ok = ok2
     known = load_known()
     os.makedirs(os.path.join(VERIF, 'reports'), exist_ok=True)
     if not replay:
@@ -306,6 +338,8 @@ def main(argv):
         print('  floor %s: found %d (>= %d) %s' % (fl, d['found'], d['floor'], d['what']))
     for k in ctx.kill_tests:
         print('  kill-test %s: %s' % (k['patch'], k['status']))
+    for k in ctx.silent_tests:
+        print('  negative-control %s: %s %s' % (k['patch'], k['status'], k.get('fired') or ''))
     write_evidence(ctx, getattr(mod, 'EXPLANATION', ''), getattr(mod, 'RULE', ''), len(new))
     for v in new:
         h = hashlib.sha256(v['key'].encode()).hexdigest()[:12]
@@ -318,6 +352,9 @@ def main(argv):
         return 1
     if not checker_ok:
         print('CHECKER-ERROR property=%s a kill test was missed (see evidence)' % pid)
+        return 2
+    if not silent_ok:
+        print('CHECKER-ERROR property=%s a negative control (behaviour-preserving refactoring) raised an alarm (see evidence)' % pid)
         return 2
     return 0
 
